@@ -224,10 +224,11 @@ def judgeGeomNaN (g : BGeom) (cls0 : String) (rhs : Tok) : String :=
         ⟨⟨nvOfBits q.1, nvOfBits q.2.1⟩, ⟨nvOfBits q.2.2.1, nvOfBits q.2.2.2⟩⟩
       -- the envelope clause read with NaN (SpecNaN.lean: an axis without NaN has non-NaN sides; a non-NaN side is an
       -- attained bound of the non-NaN coordinates of its axis), on the implementation's answers; proved for the model
-      -- (C04_nan_envelope / C04_nan_exec) for geometries without `*Bounds` members
+      -- (C04_nan_envelope_boxes / _exec) for geometries whose `*Bounds` members all have value sides (phase 4; before:
+      -- only for geometries without any `*Bounds` member)
       let vsN := vertices (geomNV g)
       let specB : Option String :=
-        if !noBoxes g then none else
+        if !(noNaNBoxes (geomNV g)) || isBox g then none else
         match a.bnd with
         | none => some "Bounds-panicked"
         | some none => some "Bounds-nil"
